@@ -1,6 +1,11 @@
 #!/venv/bin/python
 """(Re)generate /verif/mutants/*.patch: the realistic changes listed in DESIGN
-section 5, as unified diffs against /repo's current tree."""
+section 5, as unified diffs against /repo's current tree.  Three candidates
+that turned out to be equivalent inside the input domain were dropped (DESIGN
+8.8): a `break` after the first rename of a header in an entry (a header occurs
+once among distinct successors), table keys starting at 1 on both the
+assignment and the table side, `[:1]` of a backedge tuple that never has two
+entries."""
 import os, shutil, subprocess, sys
 T = "numba_scfg/core/transformations.py"
 S = "numba_scfg/core/datastructures/scfg.py"
@@ -11,8 +16,6 @@ M = {
  "C01-exit-assignment-wrong-value": (T, "                        variable_assignment[exit_variable] = reverse_lookup(\n                            exit_value_table, jt\n                        )",
                                         "                        variable_assignment[exit_variable] = reverse_lookup(\n                            exit_value_table, exit_blocks[0]\n                        )"),
  "C01-latch-table-swapped": (T, "            i: j for i, j in enumerate((loop_head, synth_exit))", "            i: j for i, j in enumerate((synth_exit, loop_head))"),
- "C01-entry-header-not-renamed-twice": (T, "        for idx, s in enumerate(jt):\n            if s == region_header:\n                jt[idx] = region_name\n        entry = entry.replace_jump_targets(jump_targets=tuple(jt))",
-                                           "        for idx, s in enumerate(jt):\n            if s == region_header:\n                jt[idx] = region_name\n                break\n        entry = entry.replace_jump_targets(jump_targets=tuple(jt))"),
  "C01-no-update-exiting": (T, "        if isinstance(entry, RegionBlock):\n            entry = update_exiting(entry, region_header, region_name)", "        if False and isinstance(entry, RegionBlock):\n            entry = update_exiting(entry, region_header, region_name)"),
  "C01-insert-block-appends": (S, "                    if new_name not in jt:\n                        jt[jt.index(s)] = new_name", "                    if new_name not in jt:\n                        jt.remove(s)\n                        jt.append(new_name)"),
  "C01-backarc-header-lookup-first": (T, "                        variable_assignment[exit_variable] = reverse_lookup(\n                            header_value_table, jt\n                        )", "                        variable_assignment[exit_variable] = reverse_lookup(\n                            header_value_table, headers[0]\n                        )"),
@@ -22,13 +25,12 @@ M = {
  "C04-no-replace-header": (T, "    if region_header == parent_region.header:\n        parent_region.replace_header(region_name)", "    if False and region_header == parent_region.header:\n        parent_region.replace_header(region_name)"),
  "C04-no-parent-fixup": (T, "        if isinstance(v, RegionBlock):\n            object.__setattr__(v, \"parent_region\", region)", "        if False and isinstance(v, RegionBlock):\n            object.__setattr__(v, \"parent_region\", region)"),
  "C04-region-raw-targets": (T, "        _jump_targets=scfg[region_exiting].jump_targets,\n        backedges=(),\n        kind=region_kind,", "        _jump_targets=scfg[region_exiting]._jump_targets,\n        backedges=(),\n        kind=region_kind,"),
- "C04-reroute-skips-nested-exiting": (S, "        if isinstance(block, RegionBlock):\n            assert block.subregion is not None\n            exiting = block.subregion.graph.pop(block.exiting)\n            block.subregion.add_block(\n                SCFG._reroute(exiting, new_name, successors)\n            )",
+ "C14-reroute-skips-nested-exiting": (S, "        if isinstance(block, RegionBlock):\n            assert block.subregion is not None\n            exiting = block.subregion.graph.pop(block.exiting)\n            block.subregion.add_block(\n                SCFG._reroute(exiting, new_name, successors)\n            )",
                                           "        if isinstance(block, RegionBlock):\n            assert block.subregion is not None\n            exiting = block.subregion.graph.pop(block.exiting)\n            if isinstance(exiting, RegionBlock):\n                block.subregion.add_block(exiting)\n                return block\n            block.subregion.add_block(\n                SCFG._reroute(exiting, new_name, successors)\n            )"),
  # ---- C06
  "C06-no-backedge-var-on-exit-arc": (T, "                    variable_assignment[backedge_variable] = reverse_lookup(\n                        backedge_value_table,\n                        (\n                            synth_exit\n                            if needs_synth_exit\n                            else next(iter(exit_blocks))\n                        ),\n                    )",
                                          "                    if not needs_synth_exit or jt != exit_blocks[-1]:\n                        variable_assignment[backedge_variable] = (\n                            reverse_lookup(\n                                backedge_value_table,\n                                (\n                                    synth_exit\n                                    if needs_synth_exit\n                                    else next(iter(exit_blocks))\n                                ),\n                            )\n                        )"),
  "C06-no-exit-var-on-backarc-unified": (T, "                    if needs_synth_exit or headers_were_unified:", "                    if needs_synth_exit and headers_were_unified:"),
- "C06-branch-value-starts-at-one": (S, "        branch_variable_value = 0", "        branch_variable_value = 1 if len(successors) > 2 else 0"),
  "C06-table-kept-on-retarget": (B, "                for k, v in old_branch_value_table.items():\n                    if v == target:\n                        new_branch_value_table[k] = new_target", "                for k, v in old_branch_value_table.items():\n                    if v == target:\n                        new_branch_value_table[k] = (\n                            new_target if idx == 0 else v\n                        )"),
  # ---- C07
  "C07-continue-to-exit-in-nested": (A, "        if self.is_continue():\n            self.set_jump_targets(head_index)", "        if self.is_continue():\n            self.set_jump_targets(\n                head_index if len(self.instructions) < 3 else exit_index\n            )"),
@@ -53,7 +55,6 @@ M = {
  "C14-multi-arc-pops-wrong": (S, "                    else:\n                        jt.pop(jt.index(s))", "                    else:\n                        jt.pop()"),
  # ---- C15
  "C15-exiting-of-nested-region-lost": (S, "                blocks[key][\"exiting\"] = value.exiting", "                blocks[key][\"exiting\"] = (\n                    value.exiting\n                    if value.parent_region.kind == \"meta\"\n                    else value.header\n                )"),
- "C15-backedges-sorted": (S, "            backedges[key] = [i for i in value.backedges]", "            backedges[key] = sorted(i for i in value._jump_targets if i in value.backedges)[:1]"),
  "C15-variable-lost-for-exit-branch": (S, "            elif isinstance(value, SyntheticBranch):\n                blocks[key][\"branch_value_table\"] = value.branch_value_table\n                blocks[key][\"variable\"] = value.variable", "            elif isinstance(value, SyntheticBranch):\n                blocks[key][\"branch_value_table\"] = value.branch_value_table\n                if len(value.branch_value_table) < 3:\n                    blocks[key][\"variable\"] = value.variable"),
  "C15-edges-deduplicated": (S, "            edges[key] = [i for i in value._jump_targets]", "            edges[key] = list(dict.fromkeys(sorted(value._jump_targets) if len(value._jump_targets) > 2 else value._jump_targets))"),
  # ---- C18
